@@ -341,8 +341,17 @@ type qdef struct{ q, coq string }
 
 func textCoq(s string) string { return hx.Str(s) }
 
+// date comparisons on last_seen_on (model: QLastSeenCmp k, per-instant table from the real evaluator).  The dates are
+// months away from every instant the generators use, so the answer does not depend on the time zone the engine
+// happens to evaluate in (session environment at start/resume, contact-merged environment inside modifiers.Apply)
+var seenCmpQueries = []string{`last_seen_on > "2022-06-15"`, `last_seen_on < "2022-06-15"`, `last_seen_on > "2027-06-15"`, `last_seen_on <= "2027-06-15"`}
+
 // queries inside the fragment of model/Groups.v
 var fragmentQueries = []qdef{
+	{seenCmpQueries[0], "QLastSeenCmp 0"},
+	{seenCmpQueries[1], "QLastSeenCmp 1"},
+	{seenCmpQueries[2], "QLastSeenCmp 2"},
+	{seenCmpQueries[3], "QLastSeenCmp 3"},
 	{`name = "bob"`, "QNameIs " + textCoq("bob")},
 	{`name = "ann lee"`, "QNameIs " + textCoq("ann lee")},
 	{`name != ""`, "QNameSet"},
